@@ -238,7 +238,10 @@ impl<T: MomTropFloat> SquareMatrix<T> {
                 println!("error: {:?}", error);
             }
 
-            if error > error.from_f64(tolerance) {
+            // written as a negated `<=` so that a NaN error (e.g. from an indefinite matrix) is
+            // rejected as well: `NaN > tolerance` is false
+            #[allow(clippy::neg_cmp_op_on_partial_ord)]
+            if !(error <= error.from_f64(tolerance)) {
                 if settings.print_debug_info {
                     println!("Inversion unstable");
                 }
